@@ -651,6 +651,28 @@ def _bulk_load(ctx, fn, defs, call, stmts, base):
     heads = [s[1] for s in slices if s[0] is None and s[1] is not None]
     tails = [s[0] for s in slices if s[1] is None and s[0] is not None]
     okb = len(heads) == 1 and len(tails) == 1 and heads[0] == tails[0]
+    if not heads and not tails:
+        # stride form: for off in range(0, len(src), N): cur = src[off:off + N]
+        for lp in [n for n in ast.walk(fn.node) if isinstance(n, ast.For) and isinstance(n.target, ast.Name) and is_call(n.iter, 'range') and len(n.iter.args) == 3]:
+            a0, a1, a2 = lp.iter.args
+            step = try_const(a2, ctx.repo, fn.mod)
+            if not (try_const(a0) == 0 and is_call(a1, 'len') and same(a1.args[0], src) and isinstance(step, int)):
+                continue
+            v = lp.target.id
+            widths = []
+            for lo, up, n in slices:
+                lo_e, up_e = n.slice.lower, n.slice.upper
+                if isinstance(lo_e, ast.Name) and lo_e.id == v and isinstance(up_e, ast.BinOp) and isinstance(up_e.op, ast.Add):
+                    sides = [up_e.left, up_e.right]
+                    if any(isinstance(x, ast.Name) and x.id == v for x in sides):
+                        w = [try_const(x, ctx.repo, fn.mod) for x in sides if not (isinstance(x, ast.Name) and x.id == v)]
+                        widths.append(w[0] if w else None)
+                    else:
+                        widths.append(None)
+                else:
+                    widths.append(None)
+            if widths and all(w == step for w in widths):
+                okb, heads, tails = True, [step], [step]
     ctx.check(okb, base + ':batch-advance', 'the batch taken [:N] and the rest kept [N:] use the same N (%s)' % heads, fn,
               fail='batch slices differ: taken [:%s], kept [%s:]: parameters are skipped or repeated' % (heads, tails))
     if heads:
